@@ -150,6 +150,18 @@ def stepOk (cfg : Cfg) (frames timers : Bool) (w : W) (r : Role) (a : WAct) (st 
   match st.anomalies with
   | e :: _ => .error e
   | [] =>
+  match a.forceDown? with
+  | some n =>
+      -- every session of the peer ends (with that NOTIFICATION, if any); whatever ends a session
+      -- frees its slot for a new attempt
+      let closedOk (r' : Role) : Bool :=
+        if w.s.get r' = .idle then framesOf st r' = [] else closedWith (framesOf st r') n
+      if st.kind ≠ .step then .error "malformed-observation"
+      else if st.stA ≠ .idle ∨ st.stP ≠ .idle then .error "slot-not-freed-after-session-end"
+      else if frames && !(closedOk .active && closedOk .passive) then .error "forced-down-close"
+      else if timers && (st.tmA.isSome || st.tmP.isSome) then .error "timer-probe-of-closed-connection"
+      else .ok { w with s := {} }
+  | none =>
   match st.kind with
   | .refused =>
       if a ≠ .connect then .error "malformed-observation"
@@ -170,7 +182,14 @@ def stepOk (cfg : Cfg) (frames timers : Bool) (w : W) (r : Role) (a : WAct) (st 
       else if a ≠ .connect ∧ cur = .idle then .error "event-on-a-free-slot"
       else
         let (s', ex) := Spec.next cfg r w.s a.ev
-        if st.stA ≠ s'.a ∨ st.stP ≠ s'.p then .error "state"
+        if st.stA ≠ s'.a ∨ st.stP ≠ s'.p then
+          -- a message not allowed in the current state that did not tear the connection down
+          (match ex with
+           | .downLocal (5, _) =>
+               if (if r = .active then st.stA else st.stP) ≠ .idle then
+                 .error "message-not-allowed-in-state-but-no-fsm-error"
+               else .error "state"
+           | _ => .error "state")
         else if confirmed s'.a ∧ confirmed s'.p then .error "two-confirmed"
         else
           match (if frames then seesWire r a st ex else none) with
